@@ -372,7 +372,7 @@ func c32Plans(r *vmc.Result) []c32Plan {
 	if r.Thorough() {
 		return []c32Plan{
 			{"dup-on-live", 2, 2}, {"flap-wr-min", 2, 2}, {"flap-rd-min", 2, 2}, {"flap-clk-min", 2, 2}, {"flap-rd+wr-min", 2, 2},
-			{"dial+accept", 2, 2}, {"flap-wr", 1, 2}, {"flap-rd", 1, 2}, {"flap-clk", 1, 2}, {"flap-rd+wr", 1, 2}, {"flap-wr-2", 0, 2},
+			{"dial+accept", 2, 2}, {"flap-wr", 1, 2}, {"flap-rd", 1, 2}, {"flap-clk", 1, 2}, {"flap-rd+wr", 0, 2}, {"flap-wr-2", 0, 2},
 			// bound 0 only: with one preemption inside handleDisconnect these scripts would re-find the open
 			// known finding (cleanup callback delayed past a re-registration) under a new name
 			{"sleep-redial", 0, 2}, {"kick-redial", 0, 2},
